@@ -16,6 +16,7 @@ func checkC04(e *Engine, r *Report) {
 		"data-flow: every call in the two policies that yields libmem's `updates` map (Allocate, Realloc, Offer.Commit and the repository wrappers that forward it) either forwards the map to its own caller or ranges over it and, for the container/grant looked up under each key, tells the entry's node mask to the runtime (SetCpusetMems(value.MemsetString())) and, in the topology-aware policy, records it in the grant (SetMemoryZone(value)); the map is never dropped",
 		"data-flow: the requester's own zone result is forwarded, recorded in the grant, or told to the runtime in the same function (except for a memory-preserved container, which is accounted but not re-pinned)",
 		"zone source: in the topology-aware applyGrant the memory set told is the grant's recorded zone whenever memory pinning is enabled; the node mask is rendered with MemsetString()",
+		"R1 the zone handed back is final (shared with C07): Allocate/realloc return the request's recorded zone read after overcommit handling",
 		"R1 fit check on every admission (shared with C07): allocate/realloc succeed only with the verdict of a fresh overcommit check; zoneFree = capacity - usage; usage sums all sub-zones",
 		"delivery: the SetCpusetMems calls mark the containers pending and the enclosing handlers drain pending updates in the same reply (C05)",
 	}
@@ -273,8 +274,8 @@ func checkC04(e *Engine, r *Report) {
 			})
 		}
 	}
-	r.MinInstances("calls yielding libmem updates in the policies", nUpd, 7)
-	r.MinInstances("calls yielding the requester's zone", nZone, 5)
+	r.MinInstances("calls yielding libmem updates in the policies", nUpd, 4)
+	r.MinInstances("calls yielding the requester's zone", nZone, 3)
 
 	// BL: allocMem's zone is told by pinCpuMem unless the container is memory-preserved
 	if pin, am := r.Anchor(pkgBL, "balloons.pinCpuMem"), r.Anchor(pkgBL, "balloons.allocMem"); pin != nil && am != nil {
@@ -393,6 +394,7 @@ func checkC04(e *Engine, r *Report) {
 		zoneUsage := r.Anchor(pkgLM, "Allocator.zoneUsage")
 		if ensure != nil && defOC != nil && checkOC != nil && zoneFree != nil && c.allocate != nil && c.realloc != nil && c.handleOvercommit != nil {
 			checkLibmemFit(e, r, c, ensure, defOC, checkOC, zoneFree, zoneCap, zoneUsage)
+			checkFinalZoneReturned(e, r, c, r.Anchor(pkgLM, "Allocator.Allocate"))
 			// realloc: after the move, success only after a nil handleOvercommit for the widened zone
 			for _, mc := range e.callsTo(c.realloc, c.zoneMove) {
 				r.MustPass("R1:realloc-checks-fit", "R1 fit check", "after widening an allocation realloc consults handleOvercommit before it can succeed", c.realloc, mc.(ssa.Instruction), e.maySucceed,
